@@ -79,7 +79,7 @@ theorem Closed_arithSub {x y r : Expr} (hx : Closed x) (hy : Closed y) (h : arit
     Closed r := by
   unfold arithSub at h
   split at h
-  · cases h; exact hy
+  · exact Closed_arithNeg h
   · obtain ⟨ny, hny, h⟩ := bind_eq_ok.mp h
     exact Closed_arithAdd hx (Closed_arithNeg hny) h
   · obtain ⟨ny, hny, h⟩ := bind_eq_ok.mp h
